@@ -210,6 +210,22 @@ def run(ctx):
             else:
                 pts = [real_eval(circuit, f[j:j + 1]) for j in range(f.size)]
                 ways["one-at-a-time"] = z1 if all(isinstance(p, str) and p == z1 for p in pts) else "mixed"
+            if not isinstance(z1, str) and len(set(f.tolist())) == f.size:
+                # simulate_spectrum: every (frequency, impedance) pair of the returned data set belongs together
+                try:
+                    from pyimpspec import simulate_spectrum
+                    ds = simulate_spectrum(circuit, f.tolist() if rnd.random() < 0.5 else f)
+                    lookup = {float(a): b for a, b in zip(f.tolist(), z1)}
+                    ways["simulate_spectrum"] = np.array([lookup[float(a)] for a in ds.get_frequencies()]) if set(map(float, ds.get_frequencies())) == set(lookup) else "err frequencies-differ"
+                    z1_sim = ds.get_impedances()
+                    ctx.count("way:simulate_spectrum")
+                    if uniform and not close(ways.pop("simulate_spectrum"), z1_sim, 1e-9):
+                        ctx.add_failing("construction-independence", {"cdc": circuit.serialize(17), "way": "simulate_spectrum", "f": f.tolist(), "all_open_parallel": all_open_parallel},
+                                        observed=str(list(zip(ds.get_frequencies().tolist(), z1_sim.tolist())))[:300], expected=str(list(zip(f.tolist(), z1.tolist())))[:300],
+                                        clause="the impedance reported at any frequency (Circuit.get_impedances / simulate_spectrum) equals the value obtained by combining the parts")
+                except Exception as e:  # noqa
+                    ways.pop("simulate_spectrum", None)
+                    ctx.count("way:simulate_spectrum:raises:" + type(e).__name__)
             for w, z in (ways.items() if uniform else []):
                 ctx.count("way:" + w)
                 if not close(z1, z, 1e-9):
